@@ -5,6 +5,10 @@
 //!  * `restore_sandbox`    (C16): symlinks owned by another user pointing at sentinels beside the destination
 //!                         (relative `..`, absolute, directory): restore must leave owner / mode / mtime / content
 //!                         of every sentinel untouched; a non-empty destination must be refused untouched.
+//!                         Stitched scenario: directory `a` (holding `a/x`) replaced by a symlink leading out of the
+//!                         destination (absolute, relative, `..`), second backup interrupted after the hunk holding
+//!                         `/a`: restoring the latest (incomplete) version must create nothing through the link
+//!                         and must report the refused entry; with a COMPLETE second version it restores cleanly.
 //!  * `resume_no_rewrite`  (C14): a backup interrupted after any index hunk and resumed on the unchanged tree
 //!                         writes no data block (everything it needs is already stored), and an unchanged-tree
 //!                         backup writes none and records identical addresses.
@@ -203,8 +207,140 @@ fn restore_sandbox() -> Result<Option<Value>, String> {
             return found("restore_sandbox", json!({}), format!("restore into a non-empty destination returned {:?} and left {names:?}", r.is_ok()), "Err(DestinationNotEmpty), destination untouched",
                 "restore without overwrite did not refuse a non-empty destination");
         }
+        // the stitched listing of an interrupted backup: a symlink from the newer band followed by the former contents
+        // of the directory it replaced, from the older band
+        for (name, target) in [("absolute", LinkTarget::AbsoluteSentinel), ("relative", LinkTarget::RelativeSentinel), ("dotdot", LinkTarget::DotDot)] {
+            for interrupted in [true, false] {
+                if let Some(v) = stitched_symlink_case(name, target, interrupted).await? {
+                    return Ok(Some(v));
+                }
+            }
+        }
         Ok(None)
     })
+}
+
+#[derive(Clone, Copy)]
+enum LinkTarget { AbsoluteSentinel, RelativeSentinel, DotDot }
+
+/// Names and metadata of everything below `root` (not following links), except below `skip`.
+fn tree_snapshot(root: &Path, skip: &[PathBuf]) -> Result<BTreeMap<String, String>, String> {
+    let mut out = BTreeMap::new();
+    let mut stack = vec![root.to_path_buf()];
+    while let Some(d) = stack.pop() {
+        for e in std::fs::read_dir(&d).map_err(|e| format!("setup failed at line {}: {e:?}", line!()))?.flatten() {
+            let p = e.path();
+            if skip.iter().any(|s| *s == p) {
+                continue;
+            }
+            let m = std::fs::symlink_metadata(&p).map_err(|e| format!("setup failed at line {}: {e:?}", line!()))?;
+            let content = if m.is_file() { std::fs::read(&p).ok() } else { None };
+            out.insert(p.strip_prefix(root).unwrap().to_string_lossy().into_owned(),
+                format!("type={:?} uid={} gid={} mode={:o} mtime={}.{} content={:?}", m.file_type(), m.uid(), m.gid(), m.mode(), m.mtime(), m.mtime_nsec(), content));
+            if m.is_dir() {
+                stack.push(p);
+            }
+        }
+    }
+    Ok(out)
+}
+
+/// First version: directory `a` with `a/x` (and `a/sub/y`).  Then `a` is replaced by a symlink that leads out of the
+/// destination.  Second version complete, or interrupted right after the index hunk that holds `/a` (one entry per
+/// hunk; the later hunks and the tail are removed: the state a killed backup leaves).  Restore the LATEST version:
+/// nothing outside the destination may be created or changed; in the interrupted case the entries below `/a` must be
+/// refused WITH an error report, in the complete case there is nothing to refuse and no error.
+async fn stitched_symlink_case(name: &str, target: LinkTarget, interrupted: bool) -> Result<Option<Value>, String> {
+    let tmp = tempfile::tempdir().map_err(|e| format!("setup failed at line {}: {e:?}", line!()))?;
+    let sandbox = tmp.path().join("sandbox");
+    let sentinel_dir = sandbox.join("sentinel_dir");
+    std::fs::create_dir_all(&sentinel_dir).map_err(|e| format!("setup failed at line {}: {e:?}", line!()))?;
+    std::fs::write(sentinel_dir.join("keep"), b"do not touch").map_err(|e| format!("setup failed at line {}: {e:?}", line!()))?;
+    std::fs::write(sandbox.join("beside"), b"beside the destination").map_err(|e| format!("setup failed at line {}: {e:?}", line!()))?;
+    filetime::set_file_mtime(&sentinel_dir, filetime::FileTime::from_unix_time(1_000_000_001, 6)).map_err(|e| format!("setup failed at line {}: {e:?}", line!()))?;
+    filetime::set_file_mtime(&sandbox, filetime::FileTime::from_unix_time(1_000_000_002, 7)).map_err(|e| format!("setup failed at line {}: {e:?}", line!()))?;
+    // source and archive live outside the sandbox, so that the sandbox holds only sentinels and the destination
+    let src = tmp.path().join("src");
+    write_tree(&src, &[("a/x", 9), ("a/sub/y", 5), ("plain", 7)])?;
+    let opts = || BackupOptions { max_entries_per_hunk: 1, ..BackupOptions::default() };
+    let archive_path = tmp.path().join("archive");
+    let archive = Archive::create_path(&archive_path).await.map_err(|e| format!("setup failed at line {}: {e:?}", line!()))?;
+    conserve::backup(&archive, &src, &opts(), Arc::new(VoidMonitor)).await.map_err(|e| format!("setup failed at line {}: {e:?}", line!()))?;
+    std::fs::remove_dir_all(src.join("a")).map_err(|e| format!("setup failed at line {}: {e:?}", line!()))?;
+    let dest = sandbox.join("dest");
+    let target_text: PathBuf = match target {
+        LinkTarget::AbsoluteSentinel => sentinel_dir.clone(),
+        LinkTarget::RelativeSentinel => PathBuf::from("../sentinel_dir"),   // resolved from dest/: sandbox/sentinel_dir
+        LinkTarget::DotDot => PathBuf::from(".."),                           // resolved from dest/: the sandbox itself
+    };
+    symlink(&target_text, src.join("a")).map_err(|e| format!("setup failed at line {}: {e:?}", line!()))?;
+    conserve::backup(&archive, &src, &opts(), Arc::new(VoidMonitor)).await.map_err(|e| format!("setup failed at line {}: {e:?}", line!()))?;
+    drop(archive);
+    if interrupted {
+        // find the hunk of b0001 that holds `/a`; remove every later hunk and the tail
+        let hunk_dir = archive_path.join("b0001/i/00000");
+        let nhunks = std::fs::read_dir(&hunk_dir).map_err(|e| format!("setup failed at line {}: {e:?}", line!()))?.count();
+        let probe = Archive::open_path(&archive_path).await.map_err(|e| format!("setup failed at line {}: {e:?}", line!()))?;
+        let complete = listing(&probe, 1, Exclude::nothing()).await?;
+        drop(probe);
+        let pos = complete.iter().position(|p| p == "/a").ok_or_else(|| format!("setup failed: /a is not in the second version: {complete:?}"))?;
+        if nhunks != complete.len() {
+            return Err(format!("setup failed: expected one entry per hunk, got {nhunks} hunks for {} entries", complete.len()));
+        }
+        for n in pos + 1..nhunks {
+            std::fs::remove_file(hunk_dir.join(format!("{n:09}"))).map_err(|e| format!("setup failed at line {}: {e:?}", line!()))?;
+        }
+        std::fs::remove_file(archive_path.join("b0001/BANDTAIL")).map_err(|e| format!("setup failed at line {}: {e:?}", line!()))?;
+    }
+    let archive = Archive::open_path(&archive_path).await.map_err(|e| format!("setup failed at line {}: {e:?}", line!()))?;
+    // what the latest version lists (stitched when interrupted)
+    let mut listed = Vec::new();
+    {
+        let mut it = archive.iter_entries(BandSelectionPolicy::Latest, Apath::root(), Exclude::nothing(), Arc::new(VoidMonitor)).await.map_err(|e| format!("setup failed at line {}: {e:?}", line!()))?;
+        while let Some(e) = it.next().await {
+            listed.push(e.apath.to_string());
+        }
+    }
+    let below: Vec<&String> = listed.iter().filter(|p| p.starts_with("/a/")).collect();
+    if interrupted && below.is_empty() {
+        return Err(format!("setup failed: the stitched listing holds nothing below /a: {listed:?}"));
+    }
+    if !interrupted && !below.is_empty() {
+        return Err(format!("setup failed: the complete second version lists entries below the symlink: {listed:?}"));
+    }
+    let input = json!({"scenario": "directory replaced by a symlink", "link_target": name, "target_text": target_text.to_string_lossy(), "second_backup_interrupted_after": if interrupted { "/a" } else { "(complete)" }, "latest_version_lists": listed});
+    let before = tree_snapshot(&sandbox, &[dest.clone()])?;
+    let before_dir = snap(&sentinel_dir)?;
+    let monitor = TestMonitor::arc();
+    let r = conserve::restore(&archive, &dest, RestoreOptions { band_selection: BandSelectionPolicy::Latest, ..RestoreOptions::default() }, monitor.clone()).await;
+    let errors = monitor.take_errors();
+    let after = tree_snapshot(&sandbox, &[dest.clone()])?;
+    let after_dir = snap(&sentinel_dir)?;
+    if after != before || after_dir != before_dir {
+        let created: Vec<&String> = after.keys().filter(|k| !before.contains_key(*k)).collect();
+        let changed: Vec<&String> = after.iter().filter(|(k, v)| before.get(*k).is_some_and(|b| b != *v)).map(|(k, _)| k).collect();
+        return found("restore_sandbox", input, format!("outside the destination: created {created:?}, changed {changed:?} (sentinel directory {after_dir:?}, before {before_dir:?})"),
+            "nothing outside the destination is created or modified",
+            "restore wrote through a symlink it had just restored: entries of the older band below a path that the newer band records as a symlink");
+    }
+    if let Err(e) = r {
+        return found("restore_sandbox", input, format!("restore failed: {e}"), "Ok (entries that cannot be restored are reported, the rest is restored)", "restore of the latest version aborted");
+    }
+    let m = std::fs::symlink_metadata(dest.join("a")).map_err(|e| format!("setup failed at line {}: {e:?}", line!()))?;
+    if !m.file_type().is_symlink() || std::fs::read_link(dest.join("a")).map_err(|e| format!("setup failed at line {}: {e:?}", line!()))? != target_text {
+        return found("restore_sandbox", input, format!("dest/a is {:?}", m.file_type()), "the symlink recorded by the latest version", "the symlink of the latest version was not restored as that symlink");
+    }
+    if std::fs::read(dest.join("plain")).ok().map(|c| c.len()) != Some(7) {
+        return found("restore_sandbox", input, "dest/plain is missing or has the wrong length".into(), "the other entries are restored", "an entry beside the symlink was not restored");
+    }
+    if interrupted && errors.is_empty() {
+        return found("restore_sandbox", input, format!("no error was reported although {below:?} were not restored"), "an error report for every refused entry",
+            "entries below a path restored as a symlink were dropped silently");
+    }
+    if !interrupted && !errors.is_empty() {
+        return found("restore_sandbox", input, format!("errors reported: {errors:?}"), "no error", "restoring a complete version in which a directory became a symlink reported errors");
+    }
+    Ok(None)
 }
 
 extern "C" {
